@@ -3,12 +3,19 @@ import Q1t.Base.CFloat
 import Q1t.Model.FromStringTables
 import Q1t.Spec.FromString
 import Q1t.Spec.Unitaries
+import Q1t.Model.Conj
+import Q1t.Spec.Clifford
 /-!
 Driver for C15 (`Composite::from_string`).  Protocol: harness/src/bin/c15.rs.
 
   g <name> <maxw> <text> | <parts>          grammar-generated description with its structure
   m <name> <maxw> <text> | <class> | <expected answer>   malformed by construction, documented error
   x <name> <maxw> <text>                    mutated / garbage text
+  k <name> <maxw> <text> | <parts>          Clifford-only description: `conjugate()` of the built composite on every Pauli
+                                            string -> `conj <is_stabilizer> <w> ; r ; r …` (model: `Q1t.Conj.conjugate` on the
+                                            model's composite; (B): M·P = ±P′·M for M = product of the documented unitaries)
+  s <name> <maxw> <text> | <parts> | <in>   the composite in a circuit (basis state, composite, inverses of the listed gates
+                                            in reverse, measure_all) on both backends -> `circ S <digits>:<n>,… V …`
 
 `<text>`, `<name>` and error payloads: '.'-separated hexadecimal code points ('-' = empty).
 Answer: `ok <width> <name> | ops <k> <op>… | mat <n> <re im>…` (`<op>` = `<name>[(<p1>,<p2>…)]@<b0>,<b1>…`, the sub-gate list of
@@ -99,14 +106,6 @@ def answer (name : List Char) (maxw : Nat) (text : List Char) : String :=
   | .err e => showErr e
   | .panic site => s!"panic {site}"
   | .fuel => "model-out-of-fuel"
-
-def handle (line : String) : String :=
-  match words ((line.splitOn "|").headD "") with
-  | [_kind, name, maxw, txt] =>
-    match decodeText name, maxw.toNat?, decodeText txt with
-    | some n, some w, some s => answer n w s
-    | _, _, _ => "bad-request"
-  | _ => "bad-request"
 
 /-! ### request structure: concrete syntax of the parts -/
 
@@ -199,6 +198,153 @@ def parseParts : Nat → List String → Option (List PartL)
           | [] => none
       | [] => none
   | _, _ => none
+
+/-! ### the stabilizer route (kinds `k`, `s`) -/
+
+open Q1t.Tableau (P) in
+def showConj : Conj.Result → String
+  | .ok (flip, o) => (s!"ok {if flip then 1 else 0} " ++ joinNats (o.map P.toBits)).trimAscii.toString
+  | .error (.invalidNrBits g e) => s!"err invalidNrBits {g} {e}"
+  | .error .notAStabilizer => "err notAStabilizer"
+  | .error .oob => "panic"
+
+/-- `conj <flag> <w> ; r ; …` of the model's composite. -/
+def conjAnswer (name text : List Char) : String :=
+  match FromString.fromString Expr.floatOps FromString.genTables (String.ofList name) text with
+  | .ok g =>
+    let w := Gate.nrBits g
+    " ; ".intercalate (s!"conj {Conj.isStabilizer g} {w}" ::
+      (Spec.Clifford.allStrings w).map fun ops => showConj (Conj.conjugate g ops))
+  | .err e => showErr e
+  | .panic site => s!"panic {site}"
+  | .fuel => "model-out-of-fuel"
+
+def inverseKey : String → String
+  | "s" => "sdg" | "sdg" => "s" | "v" => "vdg" | "vdg" => "v" | k => k
+
+/-- The inverses of the listed gates, in reverse order, as a gate list. -/
+def inverseOps (ps : List PartL) : OpList Float :=
+  ps.foldl (fun acc p =>
+    match Spec.FromString.docGate (P := Float) (inverseKey p.key) [] with
+    | some g => .cons g p.vals acc
+    | none => acc) .nil
+
+/-- The model's prediction of the circuit: the stabilizer `±Z_i` of the input basis state is carried through the model's
+composite and through the inverse gates by `Conj.conjugate`; if it comes back as `±Z_i` the outcome of qubit `i` is fixed. -/
+def circAnswer (name text : List Char) (ps : List PartL) (input : List Nat) : String :=
+  match FromString.fromString Expr.floatOps FromString.genTables (String.ofList name) text with
+  | .ok g =>
+    let w := Gate.nrBits g
+    let inv : GateTerm Float := .Composite "inv" w (inverseOps ps)
+    let outs := (List.range w).map fun i =>
+      let zi : List Tableau.P := (List.range w).map fun j => if j = i then Tableau.P.Z else Tableau.P.I
+      match Conj.conjugate g zi with
+      | .ok (f1, o1) =>
+        (match Conj.conjugate inv o1 with
+         | .ok (f2, o2) => if o2.map Tableau.P.toBits == zi.map Tableau.P.toBits then some ((input.getD i 0 + (if f1 != f2 then 1 else 0)) % 2) else none
+         | .error _ => none)
+      | .error _ => none
+    if outs.all Option.isSome then
+      let d := String.join (outs.map fun o => toString (o.getD 0))
+      s!"circ S {d}:8 V {d}:8"
+    else "circ not-deterministic-in-the-model"
+  | .err e => showErr e
+  | .panic site => s!"panic {site}"
+  | .fuel => "model-out-of-fuel"
+
+/-- Phase and target of a Pauli string on a basis column: `P|c⟩ = ph · |c xor x⟩` (qubit 0 = most significant bit). -/
+def pauliAct (w : Nat) (ops : List Tableau.P) (c : Nat) : Nat × CFloat :=
+  (ops.zipIdx).foldl (fun (acc : Nat × CFloat) (pi : Tableau.P × Nat) =>
+    let sh := w - 1 - pi.2
+    let bit := (c >>> sh) % 2
+    let (r, ph) := acc
+    match pi.1 with
+    | .I => (r, ph)
+    | .Z => (r, if bit = 1 then -ph else ph)
+    | .X => (r ^^^ (1 <<< sh), ph)
+    | .Y => (r ^^^ (1 <<< sh), (if bit = 1 then (⟨0.0, -1.0⟩ : CFloat) else ⟨0.0, 1.0⟩) * ph)) (c, (1 : CFloat))
+
+/-- `max |M·P − s·P′·M|` for Pauli strings `P`, `P′` (monomial matrices; `M` unitary). -/
+def intertwineDev (w : Nat) (M : Array (Array CFloat)) (p p' : List Tableau.P) (flip : Bool) : Float :=
+  let d := 2 ^ w
+  let get (i j : Nat) : CFloat := (M.getD i #[]).getD j 0
+  (List.range d).foldl (fun acc c =>
+    let (rc, ph) := pauliAct w p c          -- column c of P has its entry in row rc
+    (List.range d).foldl (fun acc r =>
+      -- (M·P)[r][c] = M[r][rc]·ph ;  (P′·M)[r][c] = Σ_m P′[r][m] M[m][c], P′[r][m] ≠ 0 iff r = target(m)
+      let lhs := get r rc * ph
+      -- P′ is an involution up to phase: the column m with target r is m = r xor x′, which is target(r)'s row index
+      let (m, _) := pauliAct w p' r
+      let (_, ph') := pauliAct w p' m
+      let rhs := ph' * get m c
+      let rhs := if flip then -rhs else rhs
+      max acc (CFloat.dist lhs rhs)) acc) 0.0
+
+def parseConjAns (ws : List String) : Option (Bool × List Tableau.P) :=
+  match ws with
+  | "ok" :: f :: ds => (nats? ds).bind fun ds =>
+      if f = "0" then some (false, ds.map Tableau.P.ofBits) else if f = "1" then some (true, ds.map Tableau.P.ofBits) else none
+  | _ => none
+
+/-- (B) for `k`: every answer of `conjugate()` is the conjugation by the ordered product of the documented unitaries. -/
+def specK (name : List Char) (structure_ : String) (text : List Char) (ans : String) : String :=
+  match parseParts 1000 (words structure_) with
+  | none => "fail bad-request unparsable-structure"
+  | some ps =>
+    if Spec.FromString.renderDesc ps != text || ps.isEmpty || !(ps.all fun p => p.WF && p.Matches) ||
+        !Spec.FromString.distinctBits ps then "fail bad-request"
+    else match Spec.FromString.expected Spec.ExprGrammar.ieee (String.ofList name) ps with
+    | none => "fail bad-request no-documented-gate"
+    | some g =>
+      let w := Spec.FromString.maxIndex ps + 1
+      match ans.splitOn " ; " with
+      | hd :: rs =>
+        if words hd ≠ ["conj", "true", toString w] then s!"fail stabilizer-claim-or-width {hd}"
+        else
+          let strings := Spec.Clifford.allStrings w
+          if rs.length ≠ strings.length then "fail answer-count"
+          else
+            let M : Array (Array CFloat) := ((Spec.specMatrix g : LMat CFloat).map List.toArray).toArray
+            match (strings.zip rs).find? (fun sr =>
+              match parseConjAns (words sr.2) with
+              | some (fl, o) => o.length ≠ w || intertwineDev w M sr.1 o fl > 1e-9
+              | none => true) with
+            | none => "ok"
+            | some (p, r) => s!"fail conjugate-differs-from-listed-gates [{joinNats (p.map Tableau.P.toBits)}] -> {r}"
+      | [] => "fail unparsable-answer"
+
+/-- (B) for `s`: compute, uncompute with the listed gates: every shot reads the input back, on both backends. -/
+def specS (input : String) (ans : String) : String :=
+  let d := input.trimAscii.toString
+  if ans = s!"circ S {d}:8 V {d}:8" then "ok"
+  else if ans.startsWith "panic" then "fail panic"
+  else
+    match words ans with
+    | ["circ", "S", s, "V", v] =>
+      if v ≠ s!"{d}:8" then s!"fail vector-route-differs-from-listed-gates {ans}"
+      else if s ≠ s!"{d}:8" then s!"fail stabilizer-route-differs-from-listed-gates {ans}"
+      else "fail unexpected-answer"
+    | _ => s!"fail circuit-did-not-run {ans.take 80}"
+
+def handle (line : String) : String :=
+  match line.splitOn " | " with
+  | head :: extra =>
+    match words head with
+    | [kind, name, maxw, txt] =>
+      match decodeText name, maxw.toNat?, decodeText txt with
+      | some n, some w, some s =>
+        if kind = "k" then conjAnswer n s
+        else if kind = "s" then
+          (match extra with
+           | [st, inp] =>
+             (match parseParts 1000 (words st) with
+              | some ps => circAnswer n s ps (inp.trimAscii.toString.toList.map fun c => c.toNat - 48)
+              | none => "bad-request")
+           | _ => "bad-request")
+        else answer n w s
+      | _, _, _ => "bad-request"
+    | _ => "bad-request"
+  | [] => "bad-request"
 
 /-! ### (B) -/
 
@@ -340,6 +486,14 @@ def specCheck (line : String) : String :=
           if kind = "g" then
             (match extra with
              | [s] => specG name text maxw s ans
+             | _ => "fail bad-request")
+          else if kind = "k" then
+            (match extra with
+             | [st] => specK name st text ans
+             | _ => "fail bad-request")
+          else if kind = "s" then
+            (match extra with
+             | [_, inp] => specS inp ans
              | _ => "fail bad-request")
           else if kind = "m" then
             (match extra with
